@@ -187,9 +187,15 @@ class TxnCoordinator:
                 raw = rr.encode_control_batch(pl.leo, t.pid, marker_epoch, commit,
                                               int((self.c.now() + self.c.loop.clock.wall_offset) * 1000))
                 pl.append_raw(raw, self.c.now())
+                # the control batch carries producer id and epoch: appending it creates / updates the leader's producer
+                # state for that partition (Kafka ProducerStateManager), so after a fencing abort the old epoch is
+                # rejected there even if the old incarnation had not yet written to that partition
                 st = pl.producers.get(t.pid)
-                if st is not None and by == "init":
-                    st.epoch = max(st.epoch, epoch)   # leader learns the bumped epoch through the marker
+                if st is None:
+                    st = pl.producers[t.pid] = C.ProducerState()
+                    st.epoch = marker_epoch
+                if by == "init":
+                    st.epoch = max(st.epoch, epoch)
                 self.c.log("marker", topic=topic, partition=p, pid=t.pid, epoch=marker_epoch, commit=commit,
                            offset=pl.leo - 1, txn_id=t.id, txn_seq=seq)
             self.c.gc.complete_txn_offsets(t.pid, groups, commit)
